@@ -83,6 +83,7 @@ class Sim:
         self.stall_injected = False
         self.max_task_dur = 0.0
         self.startup_total = 0.0
+        self.mutated_globals = set()
 
     def log(self, msg):
         self.events.append(f"t={_hex(self.now)} {msg}")
@@ -91,18 +92,107 @@ class Sim:
         return hashlib.sha256("\n".join(self.events).encode()).hexdigest()
 
 
+# ---------------------------------------------------------------------------
+# fork semantics for module-level state of the library: every simulated worker has its own view
+# ---------------------------------------------------------------------------
+_SIMPLE = (int, float, complex, str, bytes, bool, type(None))
+_SKIP_NAMES = {"__builtins__", "__doc__", "__file__", "__name__", "__package__", "__loader__", "__spec__", "__cached__", "__path__", "__all__"}
+
+
+def _library_modules():
+    import sys
+
+    return [(n, m) for n, m in list(sys.modules.items())
+            if m is not None and (n == "pyimpspec" or n.startswith("pyimpspec.")) and not n.startswith("pyimpspec.progress")]
+
+
+def snapshot_globals():
+    """{(module name, attribute): (kind, value copy)} for every module-level scalar and (shallowly) every
+    module-level dict / list / set of the library."""
+    snap = {}
+    for name, mod in _library_modules():
+        for attr, val in list(vars(mod).items()):
+            if attr in _SKIP_NAMES or (attr.startswith("__") and attr.endswith("__")):
+                continue
+            t = type(val)
+            if t in _SIMPLE:
+                snap[(name, attr)] = ("v", val)
+            elif t is dict:
+                if len(val) <= 20000:
+                    snap[(name, attr)] = ("d", val, dict(val))
+            elif t is list:
+                if len(val) <= 20000:
+                    snap[(name, attr)] = ("l", val, list(val))
+            elif t is set:
+                if len(val) <= 20000:
+                    snap[(name, attr)] = ("s", val, set(val))
+    return snap
+
+
+def _same(entry, mod, attr):
+    cur = vars(mod).get(attr, _MISSING)
+    kind = entry[0]
+    if kind == "v":
+        return type(cur) is type(entry[1]) and (cur == entry[1] or (cur != cur and entry[1] != entry[1]))
+    if cur is not entry[1]:
+        return False  # rebound to another object
+    try:
+        if kind == "d":
+            return len(cur) == len(entry[2]) and all(k in entry[2] and entry[2][k] is v for k, v in cur.items())
+        if kind == "l":
+            return len(cur) == len(entry[2]) and all(a is b for a, b in zip(cur, entry[2]))
+        return cur == entry[2]
+    except Exception:
+        return False
+
+
+_MISSING = object()
+
+
+def _capture(mod, attr):
+    val = vars(mod).get(attr, _MISSING)
+    t = type(val)
+    if t in _SIMPLE:
+        return ("v", val)
+    if t is dict:
+        return ("d", val, dict(val))
+    if t is list:
+        return ("l", val, list(val))
+    if t is set:
+        return ("s", val, set(val))
+    return ("o", val)
+
+
+def _install(mod, attr, entry):
+    kind = entry[0]
+    if kind in ("v", "o"):
+        setattr(mod, attr, entry[1])
+    elif kind == "d":
+        setattr(mod, attr, entry[1])
+        entry[1].clear()
+        entry[1].update(entry[2])
+    elif kind == "l":
+        setattr(mod, attr, entry[1])
+        entry[1][:] = entry[2]
+    elif kind == "s":
+        setattr(mod, attr, entry[1])
+        entry[1].clear()
+        entry[1].update(entry[2])
+
+
 def _np_state_equal(a, b):
     return a[0] == b[0] and a[2] == b[2] and a[3] == b[3] and a[4] == b[4] and np.array_equal(a[1], b[1])
 
 
 class _Worker:
-    __slots__ = ("free", "np_state", "py_state", "slow")
+    __slots__ = ("free", "np_state", "py_state", "slow", "globals_view")
 
     def __init__(self, np_state, py_state):
         self.free = 0.0
         self.np_state = np_state
         self.py_state = py_state
         self.slow = 1.0
+        self.globals_view = {}  # (module, attr) -> captured entry: this worker's private module-level state
 
 
 def _exec_task(sim, pool, worker, func, blob, obj):
@@ -124,6 +214,16 @@ def _exec_task(sim, pool, worker, func, blob, obj):
     _progress._CALLBACKS = stub if len(saved_callbacks) > 0 else {}
     np.random.set_state(worker.np_state)
     _pyrandom.setstate(worker.py_state)
+    import sys as _sys
+
+    before = snapshot_globals()
+    parent_entries = {}
+    for (mname, attr), entry in worker.globals_view.items():
+        mod = _sys.modules.get(mname)
+        if mod is None:
+            continue
+        parent_entries[(mname, attr)] = _capture(mod, attr)
+        _install(mod, attr, entry)
     sim.task_depth += 1
     consumed = False
     try:
@@ -160,6 +260,46 @@ def _exec_task(sim, pool, worker, func, blob, obj):
         consumed = (not _np_state_equal(after_np, worker.np_state)) or (after_py != worker.py_state)
         worker.np_state = after_np
         worker.py_state = after_py
+        # module-level state changed by the task stays in this worker (fork semantics)
+        mutated = []
+        for (mname, attr), entry in before.items():
+            mod = _sys.modules.get(mname)
+            if mod is None:
+                continue
+            if (mname, attr) in worker.globals_view:
+                continue
+            if not _same(entry, mod, attr):
+                mutated.append((mname, attr))
+                worker.globals_view[(mname, attr)] = _capture(mod, attr)
+                parent_entries[(mname, attr)] = entry
+        for name_, mod in _library_modules():
+            for attr in vars(mod):
+                if (name_, attr) not in before and not (attr.startswith("__") and attr.endswith("__")) and type(vars(mod)[attr]) in _SIMPLE + (dict, list, set):
+                    # a module-level name created by the task: private to this worker as well
+                    if (name_, attr) not in worker.globals_view:
+                        mutated.append((name_, attr))
+                        worker.globals_view[(name_, attr)] = _capture(mod, attr)
+                        parent_entries[(name_, attr)] = ("missing",)
+        for (mname, attr) in list(worker.globals_view):
+            mod = _sys.modules.get(mname)
+            if mod is None:
+                continue
+            if (mname, attr) not in mutated:
+                worker.globals_view[(mname, attr)] = _capture(mod, attr)
+            pe = parent_entries.get((mname, attr))
+            if pe is None:
+                continue
+            if pe[0] == "missing":
+                try:
+                    delattr(mod, attr)
+                except AttributeError:
+                    pass
+            else:
+                _install(mod, attr, pe)
+        if mutated or worker.globals_view:
+            sim.probes["task_touched_module_state"] += 1
+            consumed = True  # never cache a task whose effect depends on per-worker state
+            sim.mutated_globals.update(f"{m}.{a}" for m, a in (mutated or worker.globals_view))
         np.random.set_state(parent_np)
         _pyrandom.setstate(parent_py)
         _progress._CALLBACKS = saved_callbacks
